@@ -514,7 +514,10 @@ def run(world, rep, tier, only=None):
 
     def ab_edge(nn, si, m, _f=fss):
         lit = _f.literal(nn.bid)
-        if lit and T.path(T.strip(lit[0])) == "retval":
+        a_ = T.strip(lit[0]) if lit else None
+        if isinstance(a_, dict) and a_.get("k") == "b" and a_.get("o") == "=":
+            a_ = T.strip(a_["l"])                 # if ((retval = f(...))): the value tested is retval's
+        if lit and T.path(a_) == "retval":
             truth = lit[1] if si == 0 else (not lit[1])
             return not truth                      # the error returns
         return True
